@@ -20,9 +20,15 @@ THOROUGH_BUDGET_S = 900
 RULE = ("in-memory charts over the five layouts: 1-8 (rarely up to 1294) 4/4 tempo points on measure lines (exactly "
         "representable tempos, 3-decimal tempos, arbitrary doubles, 100/3; list order sorted or shuffled; first offset 0 "
         "or not), 0-14 hits and 0-6 holds in the layout's columns at on-grid (divisions 1-96) and off-grid times, known / "
-        "unknown / empty samples, LNOBJ ids, misc headers; non-trivial = at least 2 tempo points with an object after "
+        "unknown / empty samples, LNOBJ ids, misc headers; every list (tempo, hits, holds) built either directly or through a "
+        "history of public operations that leaves non-default pandas row labels (rows handed over out of order + .sorted(), "
+        ".append(sort=True), .after() / boolean mask removing rows, concat with kept labels) and optionally a map-level "
+        "stacker operation (rate(1.0), stack().offset += 0); the model is given the rows in row order; non-trivial = at least 2 tempo points with an object after "
         "the second, or an off-grid object, or a hold")
 ASSUMPTIONS = [
+    "pandas row LABELS are outside the model (the writer model sees rows by position); they are exercised by the harness: "
+    "lists are built through histories that permute, drop and duplicate labels, and the written bytes are judged by the "
+    "by-the-book denotation",
     "str(float) of the #BPM header is not modelled character by character: the model writes the exact decimal expansion, "
     "the harness compares the numbers",
     "pandas groupby/sort_values/iterrows are modelled as list operations; row order inside one (measure, channel, den) "
@@ -168,7 +174,20 @@ def gen(rng, tier, i):
     misc = [[hx(k), hx(v)] for k, v in dict((k, v) for k, v in misc).items()]
     if rng.random() < 0.03 and ncol < 18:
         hits.append([ncol, hx(""), bpms[0][0]])       # a column the layout does not have
-    return dict(claim="write", layout=layout, title=hx(rng.choice(["song", "a b  c", "x:y #1"])), artist=hx(rng.choice(["me", "A feat. B"])),
+    hist = {}
+    for key, n_items in (("bpms", len(bpms)), ("hits", len(hits)), ("holds", len(holds))):
+        if n_items and rng.random() < 0.45:
+            name = rng.choice(HISTS[1:])
+            if name == "sorted":
+                par = list(range(n_items)); rng.shuffle(par)
+            elif name == "mask":
+                par = [rng.randrange(n_items + 1) for _ in range(rng.choice([1, 2, 3]))]
+            else:
+                par = rng.randrange(n_items + 1)
+            hist[key] = [name, par]
+    if rng.random() < 0.12:
+        hist["map"] = rng.choice(["rate1", "stack_touch"])
+    return dict(claim="write", layout=layout, hist=hist, title=hx(rng.choice(["song", "a b  c", "x:y #1"])), artist=hx(rng.choice(["me", "A feat. B"])),
                 version=hx(rng.choice(["3", "12", ""])), ln_end=hx(lnobj), samples=[[hx(k), hx(v)] for k, v in samples.items()],
                 misc=misc, bpms=bpms, hits=hits, holds=holds, no_sample_default=hx("01"))
 
@@ -266,37 +285,111 @@ def err_class(e):
     return "other:" + type(e).__name__
 
 
+HISTS = ["plain", "sorted", "append_sorted", "after", "mask", "concat"]
+
+
+def apply_hist(cls, items, dummy, h):
+    """Build a TimedList from `items` through a history of public list operations that leaves the same rows with
+    NON-DEFAULT pandas row labels (permuted, with gaps, duplicated).  `h` = [name, parameter]."""
+    import pandas as pd
+    name, par = (h or ["plain", 0])[0], (h or ["plain", 0])[1]
+    n = len(items)
+    if name == "plain" or n == 0:
+        return cls(items)
+    if name == "sorted":                      # rows handed over out of order, then .sorted(): labels permuted
+        perm = [i for i in par if i < n] + [i for i in range(n) if i not in par]
+        return cls([items[i] for i in perm]).sorted()
+    if name == "append_sorted":               # one row appended with sort=True: labels permuted
+        k = par % n
+        if n == 1:
+            return cls(items)
+        return cls(items[:k] + items[k + 1:]).append(items[k], sort=True)
+    if name == "after":                       # a row before everything, cut away with .after(): labels start at 1 / have a gap
+        k = par % (n + 1)
+        lo = min(float(x.offset) for x in items)
+        lst = cls(items[:k] + [dummy(lo - 1000.0)] + items[k:])
+        return lst.after(lo - 500.0)
+    if name == "mask":                        # rows removed with a boolean mask: labels with gaps
+        lo = min(float(x.offset) for x in items)
+        marks = sorted({p % (n + 1) for p in (par if isinstance(par, list) else [par])})
+        rows, keep = [], []
+        for i in range(n + 1):
+            if i in marks:
+                rows.append(dummy(lo - 1000.0)); keep.append(False)
+            if i < n:
+                rows.append(items[i]); keep.append(True)
+        lst = cls(rows)
+        return lst[pd.Series(keep, index=lst.df.index)]
+    if name == "concat":                      # two lists concatenated with their labels kept: duplicate labels
+        k = par % (n + 1)
+        if k in (0, n):
+            return cls(items)
+        return cls(pd.concat([cls(items[:k]).df, cls(items[k:]).df]))
+    return cls(items)
+
+
+def build_map(case):
+    BMSMap, BMSChannel, BMSBpmList, BMSHitList, BMSHoldList, BMSBpm, BMSHit, BMSHold = _imports()
+    hist = case.get("hist") or {}
+    m = BMSMap()
+    m.title, m.artist, m.version = (bytes.fromhex(case[k]) for k in ("title", "artist", "version"))
+    m.ln_end_channel = bytes.fromhex(case["ln_end"])
+    m.samples = {bytes.fromhex(k): bytes.fromhex(v) for k, v in case["samples"]}
+    m.misc = {bytes.fromhex(k): bytes.fromhex(v) for k, v in case["misc"]}
+    m.bpms = apply_hist(BMSBpmList, [BMSBpm(offset=float(F(o)), bpm=float(F(b)), metronome=4) for o, b in case["bpms"]],
+                        lambda t: BMSBpm(offset=t, bpm=120.0, metronome=4), hist.get("bpms"))
+    m.hits = apply_hist(BMSHitList, [BMSHit(offset=float(F(o)), column=c, sample=bytes.fromhex(s)) for c, s, o in case["hits"]],
+                        lambda t: BMSHit(offset=t, column=0, sample=b""), hist.get("hits"))
+    m.holds = apply_hist(BMSHoldList, [BMSHold(offset=float(F(o)), column=c, length=float(F(g)), sample=bytes.fromhex(s))
+                                       for c, s, o, g in case["holds"]],
+                         lambda t: BMSHold(offset=t, column=0, length=1.0, sample=b""), hist.get("holds"))
+    mh = hist.get("map")
+    if mh == "rate1":                         # a map-level operation that goes through the stacker
+        m = m.rate(1.0)
+    elif mh == "stack_touch":
+        st = m.stack()
+        st.offset += 0.0
+    return m
+
+
+def rows_of(m):
+    """the rows of the built lists, in ROW ORDER (positions), as exact values: what the model is given"""
+    bpms = [[R(float(b)), R(float(mt)), R(float(o))] for o, b, mt in zip(m.bpms.offset, m.bpms.bpm, m.bpms.metronome)]
+    hits = [[int(c), bytes(s).hex(), R(float(o))] for c, s, o in zip(m.hits.column, m.hits.sample, m.hits.offset)]
+    holds = [[int(c), bytes(s).hex(), R(float(o)), R(float(o) + float(g))]
+             for c, s, o, g in zip(m.holds.column, m.holds.sample, m.holds.offset, m.holds.length)]
+    return bpms, hits, holds
+
+
+def labels_default(m):
+    return all(list(l.df.index) == list(range(len(l.df))) for l in (m.bpms, m.hits, m.holds))
+
+
 def run_impl(case):
+    """returns (verdict, lines | error class, rows in row order | None, default labels?)"""
     import logging
     import warnings
-    BMSMap, BMSChannel, BMSBpmList, BMSHitList, BMSHoldList, BMSBpm, BMSHit, BMSHold = _imports()
+    BMSMap, BMSChannel, *_ = _imports()
     logging.disable(logging.CRITICAL)
     try:
         with warnings.catch_warnings():
             warnings.simplefilter("ignore")
-            m = BMSMap()
-            m.title, m.artist, m.version = (bytes.fromhex(case[k]) for k in ("title", "artist", "version"))
-            m.ln_end_channel = bytes.fromhex(case["ln_end"])
-            m.samples = {bytes.fromhex(k): bytes.fromhex(v) for k, v in case["samples"]}
-            m.misc = {bytes.fromhex(k): bytes.fromhex(v) for k, v in case["misc"]}
-            m.bpms = BMSBpmList([BMSBpm(offset=float(F(o)), bpm=float(F(b)), metronome=4) for o, b in case["bpms"]])
-            m.hits = BMSHitList([BMSHit(offset=float(F(o)), column=c, sample=bytes.fromhex(s)) for c, s, o in case["hits"]])
-            m.holds = BMSHoldList([BMSHold(offset=float(F(o)), column=c, length=float(F(g)), sample=bytes.fromhex(s))
-                                   for c, s, o, g in case["holds"]])
-            b = m.write(getattr(BMSChannel, case["layout"]), no_sample_default=bytes.fromhex(case["no_sample_default"]))
-            return ("ok", b.split(b"\r\n"))
-    except Exception as e:
-        return ("err", err_class(e))
+            m = build_map(case)
+            rows = rows_of(m)
+            dflt = labels_default(m)
+            try:
+                b = m.write(getattr(BMSChannel, case["layout"]), no_sample_default=bytes.fromhex(case["no_sample_default"]))
+                return ("ok", b.split(b"\r\n"), rows, dflt)
+            except Exception as e:
+                return ("err", err_class(e), rows, dflt)
     finally:
         logging.disable(logging.NOTSET)
 
 
-def model_chart(case):
+def model_chart(case, rows):
+    bpms, hits, holds = rows
     return dict(title=case["title"], artist=case["artist"], version=case["version"], ln_end=case["ln_end"],
-                samples=case["samples"], misc=case["misc"],
-                bpms=[[b, R(4), o] for o, b in case["bpms"]],
-                hits=[[c, s, o] for c, s, o in case["hits"]],
-                holds=[[c, s, o, R(float(F(o)) + float(F(g)))] for c, s, o, g in case["holds"]])
+                samples=case["samples"], misc=case["misc"], bpms=bpms, hits=hits, holds=holds)
 
 
 def is_data(l):
@@ -333,10 +426,19 @@ def group(rows, key_n):
 
 def run(case, drv):
     layout = case["layout"]
-    impl = run_impl(case)
-    m = drv.call("c05.write", layout=layout, no_sample_default=case["no_sample_default"], chart=model_chart(case))
+    impl4 = run_impl(case)
+    impl = impl4[:2]
+    # the chart as built (rows in ROW ORDER after the history): what the writer was given
+    r_bpms, r_hits, r_holds = impl4[2]
+    chart = dict(bpms=[[o, b] for b, _mt, o in r_bpms], hits=[[c, s_, o] for c, s_, o in r_hits],
+                 holds=[[c, s_, o, R(F(t) - F(o))] for c, s_, o, t in r_holds])
+    m = drv.call("c05.write", layout=layout, no_sample_default=case["no_sample_default"], chart=model_chart(case, impl4[2]))
     facts = m["facts"]
-    tags = [layout, f"bpms{min(len(case['bpms']), 4)}"]
+    tags = [layout, f"bpms{min(len(chart['bpms']), 4)}"]
+    if not impl4[3]:
+        tags.append("row-labels-non-default")
+    for k, h in (case.get("hist") or {}).items():
+        tags.append(f"hist:{k}:{h if isinstance(h, str) else h[0]}")
     detail = {}
     agree, ok, boundary, maxdev = True, True, False, 0.0
     if "err" in m and m["err"] == "unsupported":
@@ -361,21 +463,21 @@ def run(case, drv):
             detail["corr"] = dict(why=why, impl=[l.decode("latin-1")[:120] for l in impl[1]][:40],
                                   model=[l.decode("latin-1")[:120] for l in ml][:40])
     # ---------------- (S)
-    first_off = min(F(o) for o, _ in case["bpms"])
+    first_off = min(F(o) for o, _ in chart["bpms"])
     d31 = first_off != 0
     # D06: some tempo is not a three-decimal number (beyond the precision of a double)
-    d06 = any(abs(round(F(b) * 1000) - F(b) * 1000) > F(b) * 1000 * EPS for _, b in case["bpms"])
+    d06 = any(abs(round(F(b) * 1000) - F(b) * 1000) > F(b) * 1000 * EPS for _, b in chart["bpms"])
     d32 = facts["max_measure"] >= 1000
     # a same-lane object strictly inside a hold: the head/LNOBJ encoding cannot express it
-    pts = [(c, F(o)) for c, s_, o in case["hits"]] + [(c, F(o)) for c, s_, o, g in case["holds"]] + \
-          [(c, F(o) + F(g)) for c, s_, o, g in case["holds"]]
-    d33 = any(c == pc and F(o) < pt < F(o) + F(g) for c, s_, o, g in case["holds"] for pc, pt in pts)
+    pts = [(c, F(o)) for c, s_, o in chart["hits"]] + [(c, F(o)) for c, s_, o, g in chart["holds"]] + \
+          [(c, F(o) + F(g)) for c, s_, o, g in chart["holds"]]
+    d33 = any(c == pc and F(o) < pt < F(o) + F(g) for c, s_, o, g in chart["holds"] for pc, pt in pts)
     # "tempo points on measure lines": exactly (theorem domain) or up to the rounding of the in-memory doubles
-    sb = sorted((F(o), F(b)) for o, b in case["bpms"])
+    sb = sorted((F(o), F(b)) for o, b in chart["bpms"])
     on_lines = all(abs((o2 - o1) / (240000 / b1) - round((o2 - o1) / (240000 / b1))) <= Fr(1, 10 ** 9) and round((o2 - o1) / (240000 / b1)) >= 1
                    for (o1, b1), (o2, _) in zip(sb[:-1], sb[1:]))
     quantified = on_lines and not facts["collision"] and all(f is not None for f in all_facts) \
-        and all(0 <= c < LAYOUT_COLS[layout] for c, *_ in case["hits"] + case["holds"]) and len(case["bpms"]) < 1295
+        and all(0 <= c < LAYOUT_COLS[layout] for c, *_ in chart["hits"] + chart["holds"]) and len(chart["bpms"]) < 1295
     kf = None
     if not quantified:
         tags.append("outside-quantifier")
@@ -400,11 +502,11 @@ def run(case, drv):
             def tol(f):
                 return EPS if f["on_grid"] else F(f["beat_len"]) / 192 + EPS
             # hits
-            want = group([(c, F(o), tol(f)) for (c, s, o), f in zip(case["hits"], facts["hits"])], 1)
+            want = group([(c, F(o), tol(f)) for (c, s, o), f in zip(chart["hits"], facts["hits"])], 1)
             got = group([(h[0], F(h[2])) for h in den["hits"]], 1)
             s_hits = set(want) == set(got) and all(len(want[k]) == len(got[k]) for k in want) and all(
                 abs(w[0] - g[0]) <= w[1] + abs(w[0]) * EPS for k in want for w, g in zip(want[k], got[k]))
-            wanth = group([(c, F(o), F(o) + F(g), tol(f1), tol(f2)) for (c, s, o, g), f1, f2 in zip(case["holds"], facts["heads"], facts["tails"])], 1)
+            wanth = group([(c, F(o), F(o) + F(g), tol(f1), tol(f2)) for (c, s, o, g), f1, f2 in zip(chart["holds"], facts["heads"], facts["tails"])], 1)
             goth = group([(h[0], F(h[2]), F(h[2]) + F(h[3])) for h in den["holds"]], 1)
             s_holds = set(wanth) == set(goth) and all(len(wanth[k]) == len(goth[k]) for k in wanth) and all(
                 abs(w[0] - g[0]) <= w[2] + abs(w[0]) * EPS and abs(w[1] - g[1]) <= w[3] + abs(w[1]) * EPS
@@ -415,7 +517,7 @@ def run(case, drv):
                 tempo = tempo[1:]
             tq = drv.call("timing.time_at", t0=R(0), cs=den["tempo"], qs=[t[2] for t in tempo])["ok"]
             got_t = [(F(x), F(t[0])) for x, t in zip(tq, tempo)]
-            want_t = sorted((F(o), F(b)) for o, b in case["bpms"])
+            want_t = sorted((F(o), F(b)) for o, b in chart["bpms"])
             s_tempo = len(got_t) == len(want_t) and all(
                 abs(g[0] - w[0]) <= EPS + abs(w[0]) * EPS and abs(g[1] - w[1]) <= abs(w[1]) * EPS for g, w in zip(got_t, want_t))
             maxdev = max([float(abs(w[0] - g[0])) for k in want if k in got for w, g in zip(want[k], got[k]) if w[1] == EPS] or [0.0]) if s_hits else 0.0
@@ -441,10 +543,10 @@ def run(case, drv):
                 kf = "D36"
             elif d33:
                 kf = "D37"
-    for flag, name in ((d31, "d31-pred"), (d06, "d06-pred"), (d32, "d32-pred"), (d33, "d33-pred"), (off_grid, "off-grid"), (bool(case["holds"]), "holds")):
+    for flag, name in ((d31, "d31-pred"), (d06, "d06-pred"), (d32, "d32-pred"), (d33, "d33-pred"), (off_grid, "off-grid"), (bool(chart["holds"]), "holds")):
         if flag:
             tags.append(name)
     in_dom = bool(quantified and facts["on_measure_lines"] and not d31 and not d06 and not d32 and not d33)
-    nontrivial = quantified and (off_grid or bool(case["holds"]) or (len(case["bpms"]) >= 2 and len(case["hits"]) > 0))
+    nontrivial = quantified and (off_grid or bool(chart["holds"]) or (len(chart["bpms"]) >= 2 and len(chart["hits"]) > 0))
     return dict(claim="write", ok=ok, agree=agree, dom=in_dom, kf=kf, tags=tags, nontrivial=bool(nontrivial), maxdev=maxdev,
                 boundary=boundary, detail=detail)
